@@ -282,11 +282,16 @@ def correspondence_scalar(ctx, rng, n_obj):
 def correspondence_spoly(ctx, rng, n_obj, n_px):
     from abel.tools.polynomial import SPolynomial
     goals = []
+    crashed = []
     for oi in range(n_obj):
         R, C, rmin, rmax, c, r0, s = gen_spoly_args(rng)
         if not np.any(c):
             c[0, 0] = 1.0
-        P = SPolynomial(R.copy(), C.copy(), rmin, rmax, c.copy(), r0, s)
+        try:
+            P = SPolynomial(R.copy(), C.copy(), rmin, rmax, c.copy(), r0, s)
+        except Exception as e:
+            crashed.append((('SPolynomial', R.shape, rmin, rmax, np.asarray(c).tolist(), r0, s), '%s: %s' % (type(e).__name__, e)))
+            continue
         flat = [idx for idx in np.ndindex(R.shape) if 0 < R[idx] < rmax]
         if not flat:
             continue
@@ -300,6 +305,39 @@ def correspondence_spoly(ctx, rng, n_obj, n_px):
                                'Proof. sp_eval. Qed.'
                           % (oi, len(goals), cols, Q(r0), Q(s), Q(r), Q(cs), Q(max(rmin, 0.0)), Q(rmax), Q(v),
                              Q(tol_q(float(sc[0]) + abs(v) * 1e-3 + 1e-6, 1e-9)))))
+    # PiecewiseSPolynomial: pieces placed anywhere relative to the sampled radii (inside, straddling the edge, entirely
+    # beyond, below the first radius, zero width); abel = sum of the pieces' model values
+    from abel.tools.polynomial import PiecewiseSPolynomial
+    for oi in range(n_obj):
+        R, C, _, _, _, _, _ = gen_spoly_args(rng)
+        flatR = np.sort(np.ravel(R))
+        pieces = []
+        for where in [PLACEMENTS[(oi + j) % len(PLACEMENTS)] for j in range(int(rng.integers(1, 4)))]:
+            _, _, _, _, c, r0, s = gen_spoly_args(rng)
+            if not np.any(c):
+                c[0, 0] = 1.0
+            a, b = place_limits(rng, flatR, where)
+            pieces.append((a, b, c, r0, s))
+        try:
+            P = PiecewiseSPolynomial(R.copy(), C.copy(), [(a, b, c.copy(), r0, s) for (a, b, c, r0, s) in pieces])
+            pabel = np.asarray(P.abel, float)
+        except Exception as e:       # a valid request must not raise: counted as a disagreement with the model
+            crashed.append((('PiecewiseSPolynomial', R.shape, [(a, b, np.asarray(c).tolist(), r0, s) for (a, b, c, r0, s) in pieces]),
+                            '%s: %s' % (type(e).__name__, e)))
+            continue
+        flat = [idx for idx in np.ndindex(R.shape) if R[idx] > 0]
+        if not flat:
+            continue
+        for t in rng.choice(len(flat), size=min(len(flat), n_px), replace=False):
+            idx = flat[int(t)]
+            r, cs, v = float(R[idx]), float(C[idx]), float(pabel[idx])
+            sc = sum(float(spoly_reference(np.array([r]), np.array([cs]), a, b, c, r0, s)[3][0]) for (a, b, c, r0, s) in pieces)
+            terms = ' + '.join('sp_piece_abelQ_at %s %s%%Q %s%%Q %s%%Q %s%%Q %s%%Q %s%%Q'
+                               % (vlib.list_lit([qlist(col)[:-2] for col in np.asarray(c, float).T]) + '%Q',
+                                  Q(r0), Q(s), Q(r), Q(cs), Q(a), Q(b)) for (a, b, c, r0, s) in pieces)
+            tag = ('PiecewiseSPolynomial', R.shape, idx, [(a, b, np.asarray(c).tolist(), r0, s) for (a, b, c, r0, s) in pieces], r, cs)
+            goals.append((tag, 'Lemma spw_%d_%d : Rabs (%s - Q2R %s%%Q) <= Q2R %s%%Q.\nProof. sp_eval. Qed.'
+                          % (oi, len(goals), terms, Q(v), Q(tol_q(sc + abs(v) * 1e-3 + 1e-6, 1e-9)))))
     gshard = 4
     gtexts = []
     line_of = {}
@@ -312,7 +350,7 @@ def correspondence_spoly(ctx, rng, n_obj, n_px):
                 line_of[(name, len(lines))] = tg
         gtexts.append((name, '\n'.join(lines) + '\n'))
     outs = vlib.coq_eval_many(gtexts, timeout=1500)
-    res = dict(goals=len(goals), ok=0, bad=[], errors=[])
+    res = dict(goals=len(goals), ok=0, bad=[t for t, _ in crashed], errors=[])
     for k0, (name, _) in enumerate(gtexts):
         rc, out = outs[name]
         chunk = [t for t, _ in goals[k0 * gshard:(k0 + 1) * gshard]]
@@ -751,7 +789,7 @@ def run(ctx):
     ca = correspondence_angular(ctx, rng, 150 if ctx.quick else 1500)
     cg = correspondence_ag(ctx, rng, 2 if ctx.quick else 12)
     cs = correspondence_scalar(ctx, rng, 12 if ctx.quick else 90)
-    csp = correspondence_spoly(ctx, rng, 8 if ctx.quick else 60, 2)
+    csp = correspondence_spoly(ctx, rng, 6 if ctx.quick else 48, 2)
     corr_bad = bool(cp['func_bad'] or cp['abel_bad'] or cp['errors'] or ca['bad'] or ca['errors'] or cg['bad']
                     or cs['bad'] or cs['errors'] or csp['bad'] or csp['errors'])
     ctx.cov['correspondence_spolynomial'] = dict(abel_goals=csp['goals'], abel_ok=csp['ok'])
